@@ -212,9 +212,20 @@ def stable_per_node(g, walk):
     return "".join("%s%s:%d-%d" % (o, g.by_id[n].sn, g.by_id[n].so, g.by_id[n].end) for n, o in walk)
 
 
-def gzip_copy(src, dst):
-    with open(src, "rb") as f, gzip.open(dst, "wb") as o:
-        o.write(f.read())
+def gzip_copy(src, dst, members=1):
+    """gzip-compressed copy; members > 1 writes the text as several gzip members (what `bgzip` or `cat a.gz b.gz` produce: still one
+    valid gzip file whose decompressed content is the concatenation)"""
+    data = open(src, "rb").read()
+    if members <= 1 or len(data) < 2 * members:
+        with gzip.open(dst, "wb") as o:
+            o.write(data)
+        return
+    lines = data.splitlines(keepends=True)
+    cut = [len(lines) * i // members for i in range(members + 1)]
+    open(dst, "wb").close()
+    for i in range(members):
+        with gzip.open(dst, "ab") as o:
+            o.write(b"".join(lines[cut[i]:cut[i + 1]]))
 
 
 def read_text(path):
